@@ -38,7 +38,14 @@ inductive V where
   | slice (start stop step : V)
   | tup2 (a b : V)
   | tup3 (a b c : V)
+  | nil                               -- the empty list / tuple
+  | cons (hd tl : V)                  -- a non-empty list / tuple of any length (`tl` is `nil` or `cons`)
   deriving Repr, DecidableEq, Inhabited
+
+/-- outcome of one pass through a translated loop body: an early `return v`, or the next loop state -/
+inductive Ctl (σ : Type) where
+  | ret (v : V)
+  | next (s : σ)
 
 abbrev M := Except Err
 
@@ -57,6 +64,8 @@ def pyEq : V → V → Bool
   | .slice a b c, .slice a' b' c' => pyEq a a' && pyEq b b' && pyEq c c'
   | .tup2 a b, .tup2 a' b' => pyEq a a' && pyEq b b'
   | .tup3 a b c, .tup3 a' b' c' => pyEq a a' && pyEq b b' && pyEq c c'
+  | .nil, .nil => true
+  | .cons a b, .cons a' b' => pyEq a a' && pyEq b b'
   | _, _ => false
 
 def eq (a b : V) : M V := pure (.bool (pyEq a b))
@@ -72,6 +81,8 @@ def truthy : V → M Bool
   | .slice .. => pure true
   | .tup2 .. => pure true
   | .tup3 .. => pure true
+  | .nil => pure false
+  | .cons .. => pure true
 
 def not_ (a : V) : M V := do pure (.bool (!(← truthy a)))
 
@@ -180,10 +191,96 @@ def sliceIndices (s n : V) : M V :=
 
 def unpack2 : V → M (V × V)
   | .tup2 a b => pure (a, b)
+  | .cons a (.cons b .nil) => pure (a, b)
   | _ => throw .typeError
 def unpack3 : V → M (V × V × V)
   | .tup3 a b c => pure (a, b, c)
+  | .cons a (.cons b (.cons c .nil)) => pure (a, b, c)
   | _ => throw .typeError
+
+/-! ### lists (Python lists and variable-length tuples; value semantics) -/
+
+def ofList : List V → V
+  | [] => .nil
+  | x :: xs => .cons x (ofList xs)
+
+/-- the elements of a proper list -/
+def toList? : V → Option (List V)
+  | .nil => some []
+  | .cons x xs => (toList? xs).map (x :: ·)
+  | _ => Option.none
+
+/-- `tuple(x)` / `list(x)` on a list: the same elements (a pair or triple value is spread out) -/
+def asList : V → M V
+  | .nil => pure .nil
+  | .cons a b => pure (.cons a b)
+  | .tup2 a b => pure (.cons a (.cons b .nil))
+  | .tup3 a b c => pure (.cons a (.cons b (.cons c .nil)))
+  | _ => throw .typeError
+
+def len : V → M V
+  | .nil => pure (.int 0)
+  | .cons _ xs => do
+      match ← len xs with
+      | .int k => pure (.int (k + 1))
+      | _ => throw .typeError
+  | .tup2 .. => pure (.int 2)
+  | .tup3 .. => pure (.int 3)
+  | _ => throw .typeError
+
+def getNat : V → Nat → M V
+  | .cons x _, 0 => pure x
+  | .cons _ xs, k + 1 => getNat xs k
+  | _, _ => throw .indexError
+
+def setNat : V → Nat → V → M V
+  | .cons _ xs, 0, v => pure (.cons v xs)
+  | .cons x xs, k + 1, v => do pure (.cons x (← setNat xs k v))
+  | _, _, _ => throw .indexError
+
+/-- `x[i]` for a list and an int index (negative indices count from the end) -/
+def getItem (x i : V) : M V := do
+  match i, ← len x with
+  | .int k, .int n =>
+      let x ← asList x
+      if 0 ≤ k then getNat x k.toNat
+      else if 0 ≤ k + n then getNat x (k + n).toNat else throw .indexError
+  | _, _ => throw .typeError
+
+/-- the list `x` with element `i` replaced (`x[i] = v` under value semantics) -/
+def setItem (x i v : V) : M V := do
+  match i, ← len x with
+  | .int k, .int n =>
+      if 0 ≤ k then setNat x k.toNat v
+      else if 0 ≤ k + n then setNat x (k + n).toNat v else throw .indexError
+  | _, _ => throw .typeError
+
+/-- `x.append(v)` (returns the new list) -/
+def append : V → V → M V
+  | .nil, v => pure (.cons v .nil)
+  | .cons x xs, v => do pure (.cons x (← append xs v))
+  | _, _ => throw .typeError
+
+/-- `x.extend(ys)` -/
+def extend : V → V → M V
+  | .nil, ys => asList ys
+  | .cons x xs, ys => do pure (.cons x (← extend xs ys))
+  | _, _ => throw .typeError
+
+def revAux : V → V → M V
+  | .nil, acc => pure acc
+  | .cons x xs, acc => revAux xs (.cons x acc)
+  | _, _ => throw .typeError
+
+/-- `x[::-1]` -/
+def reversed (x : V) : M V := do revAux (← asList x) .nil
+
+/-- `range(a, b, c)` as a list -/
+def pyRange : V → V → V → M V
+  | .int a, .int b, .int c =>
+      if c = 0 then throw .valueError
+      else pure (ofList ((rangeInts a c (rangeLen a b c)).map V.int))
+  | _, _, _ => throw .typeError
 
 def slice1 (stop : V) : V := .slice .none stop .none
 def slice2 (start stop : V) : V := .slice start stop .none
